@@ -12,6 +12,7 @@ import (
 	"github.com/ipfs/go-unixfsnode"
 	"github.com/ipfs/go-unixfsnode/data/builder"
 	"github.com/ipfs/go-unixfsnode/file"
+	"github.com/ipfs/go-unixfsnode/hamt"
 	"github.com/ipld/go-ipld-prime"
 	"github.com/ipld/go-ipld-prime/datamodel"
 	"github.com/ipld/go-ipld-prime/linking"
@@ -117,6 +118,7 @@ type entity struct {
 	Blocks  []cid.Cid // distinct, excluding the root, DFS order
 	Foreign []cid.Cid // blocks of the directory's entries (must not be fetched)
 	Depth   int
+	Model   map[string]cid.Cid // directory entries by name
 }
 
 func fileEntity(f *fileFixture) (*entity, error) {
@@ -144,7 +146,7 @@ func dirEntity(c *mon.Case, d dirCase) *entity {
 	}
 	root := linkCid(l)
 	w := walkerFor(st)
-	e := &entity{Kind: d.Builder, Name: d.id(), St: st, Root: root}
+	e := &entity{Kind: d.Builder, Name: d.id(), St: st, Root: root, Model: model}
 	if rn, _ := w.Node(root); rn != nil && rn.FS != nil && rn.FS.GetType() == 5 {
 		_, shards, depth, err := w.HamtWalk(root)
 		if err != nil {
@@ -317,6 +319,96 @@ func checkEntity(c *mon.Case, e *entity, faults bool) {
 	}
 }
 
+// checkPreloadedDirIsLoaded: what the preloading view returns for a sharded directory is a loaded node,
+// not a partially loaded one - every shard block was fetched and the node goes on working when its
+// storage is taken away right afterwards: length, a whole listing and lookups need no further block,
+// also after the node was handed to the constructors once more.
+func checkPreloadedDirIsLoaded(c *mon.Case, e *entity) {
+	st := e.St.Clone()
+	st.Logging = true
+	ls := st.LinkSystem(true)
+	raw, err := loadRaw(st.LinkSystem(false), e.Root)
+	if err != nil {
+		c.Harness("load root: %v", err)
+		return
+	}
+	var node ipld.Node
+	if !c.Guard("unixfs-preload", func() { node, err = ls.KnownReifiers["unixfs-preload"](ipld.LinkContext{Ctx: bg}, raw, ls) }) || err != nil || node == nil {
+		return // judged by checkEntity
+	}
+	variants := []struct {
+		name string
+		get  func() (ipld.Node, error)
+	}{
+		{"the preloaded node", func() (ipld.Node, error) { return node, nil }},
+		{"the preloaded node handed to AttemptHAMTShardFromNode with a request-scoped context and a copy of the link system", func() (ipld.Node, error) {
+			ls2 := *ls
+			return hamt.AttemptHAMTShardFromNode(context.WithValue(bg, c06Key{}, 1), node, &ls2)
+		}},
+		{"the preloaded node handed to the preload reifier again", func() (ipld.Node, error) {
+			return ls.KnownReifiers["unixfs-preload"](ipld.LinkContext{Ctx: bg}, node, ls)
+		}},
+	}
+	names := sortedKeys(e.Model)
+	for vi, v := range variants {
+		var n ipld.Node
+		var gerr error
+		if !c.Guard(v.name, func() { n, gerr = v.get() }) {
+			continue
+		}
+		if gerr != nil || n == nil {
+			c.Violation("C06|preloaded-dir-not-loaded|constructor", "%s of %s: %v", v.name, e.Name, gerr)
+			continue
+		}
+		st.Closed = true
+		st.ResetLog()
+		c.Guard("use without storage", func() {
+			if l := n.Length(); l != int64(len(e.Model)) {
+				c.Violation("C06|preloaded-dir-not-loaded|length", "%s (%s, %d shard blocks, all fetched by the preload): with its storage taken away Length() = %d, the directory has %d entries", v.name, e.Name, len(e.Blocks), l, len(e.Model))
+				return
+			}
+			seen := 0
+			it := n.MapIterator()
+			for !it.Done() && seen <= len(e.Model) {
+				k, val, err := it.Next()
+				if err != nil {
+					c.Violation("C06|preloaded-dir-not-loaded|listing", "%s (%s): with its storage taken away the listing fails after %d of %d entries: %v", v.name, e.Name, seen, len(e.Model), err)
+					return
+				}
+				ks, _ := k.AsString()
+				if got, e2 := asCid(val); e2 != nil || !got.Equals(e.Model[ks]) {
+					c.Violation("C06|preloaded-dir-not-loaded|listing", "%s (%s): entry %q -> %v, want %v", v.name, e.Name, ks, got, e.Model[ks])
+					return
+				}
+				seen++
+			}
+			if seen != len(e.Model) {
+				c.Violation("C06|preloaded-dir-not-loaded|listing", "%s (%s): with its storage taken away the listing yields %d of %d entries", v.name, e.Name, seen, len(e.Model))
+				return
+			}
+			for i := 0; i < len(names); i += 1 + len(names)/40 {
+				val, err := n.LookupByString(names[i])
+				if err != nil {
+					c.Violation("C06|preloaded-dir-not-loaded|lookup", "%s (%s): with its storage taken away LookupByString(%q) fails: %v", v.name, e.Name, names[i], err)
+					return
+				}
+				if got, e2 := asCid(val); e2 != nil || !got.Equals(e.Model[names[i]]) {
+					c.Violation("C06|preloaded-dir-not-loaded|lookup", "%s (%s): LookupByString(%q) = %v, want %v", v.name, e.Name, names[i], got, e.Model[names[i]])
+					return
+				}
+			}
+		})
+		if reads := st.ReadCids(); len(reads) > 0 {
+			c.Violation("C06|preloaded-dir-not-loaded|requests", "%s (%s): after the preload had fetched all %d shard blocks, using the node requested %d block(s) again, e.g. %s", v.name, e.Name, len(e.Blocks), len(reads), reads[0])
+		}
+		st.Closed = false
+		c.Count("preloaded_dirs_used_without_storage", 1)
+		c.Sig(fmt.Sprintf("preloaded-dir-loaded|v%d|d%d", vi, e.Depth), true)
+	}
+}
+
+type c06Key struct{}
+
 func TestC06(t *testing.T) {
 	r := mon.Start(t, "C06")
 	defer r.Close()
@@ -368,6 +460,9 @@ func TestC06(t *testing.T) {
 			c.Count("entity_blocks", int64(len(e.Blocks)))
 			c.Max("max_hamt_depth", int64(e.Depth))
 			checkEntity(c, e, true)
+			if e.Kind == "hamt" && len(e.Blocks) > 0 {
+				checkPreloadedDirIsLoaded(c, e)
+			}
 		})
 	}
 	// entities at the end of a path inside a tree
